@@ -1,87 +1,1 @@
-import SynthVerif.Src.Prelude
-import SynthVerif.Src.Deps
-/-! GENERATED by tools/rs2lean.py from /repo/src/phase_accumulator.rs on every run.  Do not edit. -/
-set_option linter.unusedVariables false
-open F32 Rs
-namespace Src.phase_accumulator
-
-structure PhaseAccumulator (TOTAL_NUM_BITS : Nat) (NUM_INDEX_BITS : Nat) where
-  sample_rate_hz : F32
-  rollover_mask : Nat
-  accumulator : Nat
-  last_accumulator : Nat
-  increment : Nat
-  rolled_over : Bool
-deriving Inhabited
-
-def PhaseAccumulator.set_frequency {TOTAL_NUM_BITS : Nat} {NUM_INDEX_BITS : Nat} (self₀ : (Src.phase_accumulator.PhaseAccumulator TOTAL_NUM_BITS NUM_INDEX_BITS)) (freq_hz : F32) : Option (Src.phase_accumulator.PhaseAccumulator TOTAL_NUM_BITS NUM_INDEX_BITS) := do
-  let mut self := self₀
-  let t1 ← ushl 32 1 TOTAL_NUM_BITS
-  self := { self with increment := (F32.toU32 (F32.div (F32.mul (F32.ofNat t1) freq_hz) self.sample_rate_hz)) }
-  return self
-
-def PhaseAccumulator.set_period {TOTAL_NUM_BITS : Nat} {NUM_INDEX_BITS : Nat} (self₀ : (Src.phase_accumulator.PhaseAccumulator TOTAL_NUM_BITS NUM_INDEX_BITS)) (period_sec : F32) : Option (Src.phase_accumulator.PhaseAccumulator TOTAL_NUM_BITS NUM_INDEX_BITS) := do
-  let mut self := self₀
-  let t1 ← Src.phase_accumulator.PhaseAccumulator.set_frequency self (F32.div (lit 1) period_sec)
-  self := t1
-  return self
-
-def PhaseAccumulator.ramp {TOTAL_NUM_BITS : Nat} {NUM_INDEX_BITS : Nat} (self : (Src.phase_accumulator.PhaseAccumulator TOTAL_NUM_BITS NUM_INDEX_BITS)) : Option F32 := do
-  let t1 ← ushl 32 1 TOTAL_NUM_BITS
-  return (F32.div (F32.ofNat self.accumulator) (F32.ofNat t1))
-
-def PhaseAccumulator.index {TOTAL_NUM_BITS : Nat} {NUM_INDEX_BITS : Nat} (self : (Src.phase_accumulator.PhaseAccumulator TOTAL_NUM_BITS NUM_INDEX_BITS)) : Option Nat := do
-  let t1 ← usub TOTAL_NUM_BITS NUM_INDEX_BITS
-  let t2 ← ushr 32 self.accumulator t1
-  return t2
-
-def PhaseAccumulator.fraction {TOTAL_NUM_BITS : Nat} {NUM_INDEX_BITS : Nat} (self : (Src.phase_accumulator.PhaseAccumulator TOTAL_NUM_BITS NUM_INDEX_BITS)) : Option F32 := do
-  let t1 ← usub TOTAL_NUM_BITS NUM_INDEX_BITS
-  let t2 ← ushl 32 1 t1
-  let t3 ← usub t2 1
-  let fraction_mask : Nat := t3
-  let t4 ← uadd U32.bound fraction_mask 1
-  return (F32.div (F32.ofNat (self.accumulator &&& fraction_mask)) (F32.ofNat t4))
-
-def PhaseAccumulator.rolled_over_fn {TOTAL_NUM_BITS : Nat} {NUM_INDEX_BITS : Nat} (self₀ : (Src.phase_accumulator.PhaseAccumulator TOTAL_NUM_BITS NUM_INDEX_BITS)) : Option ((Src.phase_accumulator.PhaseAccumulator TOTAL_NUM_BITS NUM_INDEX_BITS) × Bool) := do
-  let mut self := self₀
-  if self.rolled_over then
-    self := { self with rolled_over := false }
-    return (self, true)
-  else
-    return (self, false)
-
-def PhaseAccumulator.reset {TOTAL_NUM_BITS : Nat} {NUM_INDEX_BITS : Nat} (self₀ : (Src.phase_accumulator.PhaseAccumulator TOTAL_NUM_BITS NUM_INDEX_BITS)) : Option (Src.phase_accumulator.PhaseAccumulator TOTAL_NUM_BITS NUM_INDEX_BITS) := do
-  let mut self := self₀
-  self := { self with accumulator := 0 }
-  self := { self with last_accumulator := 0 }
-  self := { self with rolled_over := false }
-  return self
-
-def PhaseAccumulator.new {TOTAL_NUM_BITS : Nat} {NUM_INDEX_BITS : Nat} (sample_rate_hz : F32) : Option (Src.phase_accumulator.PhaseAccumulator TOTAL_NUM_BITS NUM_INDEX_BITS) := do
-  let t1 ← ushl 32 1 TOTAL_NUM_BITS
-  let t2 ← usub t1 1
-  return ({ sample_rate_hz := sample_rate_hz, rollover_mask := t2, accumulator := 0, last_accumulator := 0, increment := 0, rolled_over := false } : (Src.phase_accumulator.PhaseAccumulator TOTAL_NUM_BITS NUM_INDEX_BITS))
-
-def PhaseAccumulator.tick {TOTAL_NUM_BITS : Nat} {NUM_INDEX_BITS : Nat} (self₀ : (Src.phase_accumulator.PhaseAccumulator TOTAL_NUM_BITS NUM_INDEX_BITS)) : Option (Src.phase_accumulator.PhaseAccumulator TOTAL_NUM_BITS NUM_INDEX_BITS) := do
-  let mut self := self₀
-  let t1 ← uadd U32.bound self.accumulator self.increment
-  self := { self with accumulator := t1 }
-  if (decide (self.rollover_mask < self.accumulator)) then
-    self := { self with rolled_over := true }
-  self := { self with accumulator := (self.accumulator &&& self.rollover_mask) }
-  self := { self with last_accumulator := self.accumulator }
-  return self
-
-def PhaseAccumulator.set_phase {TOTAL_NUM_BITS : Nat} {NUM_INDEX_BITS : Nat} (self₀ : (Src.phase_accumulator.PhaseAccumulator TOTAL_NUM_BITS NUM_INDEX_BITS)) (phase₀ : F32) : Option (Src.phase_accumulator.PhaseAccumulator TOTAL_NUM_BITS NUM_INDEX_BITS) := do
-  let mut self := self₀
-  let mut phase := phase₀
-  let t1 ← Src.phase_accumulator.PhaseAccumulator.reset self
-  self := t1
-  if (F32.lt phase (lit 0)) then
-    phase := (F32.mul phase (F32.neg (lit 1)))
-  self := { self with accumulator := (F32.toU32 (F32.mul (F32.ofNat self.rollover_mask) (F32.fmod phase (lit 1)))) }
-  return self
-
-
-end Src.phase_accumulator
+/-! GENERATED: phase_accumulator.rs could not be read: Unsupported: parser: expected identifier, found '..' -/
